@@ -6,12 +6,14 @@
 //        totality, size == reference size, terminator, no allocator event, fill-independent
 #pragma once
 #define VF_MAIN_TU
+#include "early.h"
 #include "verif.h"
 #include "alloc.h"
 #include "crc.h"
 #include "ref_utf.h"
 #include "oracle_crc.h"
 #include "utf_routes.h"
+#include "early_battery.h"
 
 #ifndef UTF_PROP
 #error "define UTF_PROP to 1, 2 or 3"
